@@ -48,7 +48,7 @@ def one(arg):
             res[p] = sorted(set(k.split("|")[0] for k in keys if not k.startswith("FLOOR")))
             if p == prop:
                 own = keys
-        real = [r_ for r_ in res.get(prop, []) if r_ not in ("INTERNAL", "FACTS", "ANCHOR")]
+        real = [r_ for r_ in res.get(prop, []) if r_ not in ("INTERNAL", "FACTS")]
         detected = bool(real)
         meta["detected_by"] = res
         meta["detected"] = detected
